@@ -180,8 +180,8 @@ def run(ctx):
                 (2, 3, "F26", (0, 2), 2, (0, 12), (0,), "CutsDefault", (1, 3))]
     else:
         cfgs = [(2, 2, "F37", (0, 1, 2), 3, (0, 6, 40), (0, 60), "CutsAll", (0, 1, 2, 3, 4)),
-                (2, 3, "F26", (0, 1, 2), 3, (0, 12), (0, 60), "CutsDefault", (0, 1, 2, 3, 4)),
-                (3, 2, "F237", (0, 1, 3), 3, (0, 6, 12), (0,), "CutsAll", (1, 2, 3)),
+                (2, 3, "F26", (0, 2), 3, (0, 12), (0, 60), "CutsDefault", (0, 1, 2, 3, 4)),      # 64 spectra x label maps x 4 masks x 5 counts
+                (3, 2, "F237", (0, 3), 3, (0, 6, 12), (0,), "CutsAll", (1, 2, 3)),
                 (1, 3, "F5", (0, 1, 2), 3, (0, 40), (0,), "CutsAll", (0, 1, 2, 3, 4))]
     for c in cfgs:
         r = ctx.tlc("MC_Partition", mc_cfg(*c, emit=True), workers=1, timeout=3000, label="exhaustive %dx%d %s" % (c[0], c[1], c[2]))
